@@ -119,6 +119,13 @@ def derive(route, ci, via):
     seq = mk(CONTENTS[ci])
     if route == "seq_copy":
         return seq, seq.copy()
+    if route == "seq_copy_doubled":
+        # the original holds every Message object twice (a sequence concatenated with itself); its copy is independent
+        x = Sequence()
+        x.concatenate([seq, seq])
+        if ci % 2:
+            x.refresh()
+        return x, x.copy()
     short = CONTENTS[ci] and max(m["t"] for m in CONTENTS[ci]) < 96
     if route == "bar_copy":
         first = seq.split([96])[0]
